@@ -24,6 +24,7 @@ import (
 	"encoding/hex"
 	"fmt"
 	"math/big"
+	"sort"
 	"sync"
 	"testing"
 
@@ -429,6 +430,19 @@ func c28Programs() []c28Prog {
 		pre("modexp-3-5-11", 5, cat(hdr, []byte{3, 5, 11}), []byte{1})
 		preDiff("modexp-3-5-short", 5, cat(hdr, []byte{3, 5})) // modulus byte missing = 0
 	}
+	{
+		// zero-length operands: the header alone does not decide the result
+		mx := func(bl, el, ml uint64, tail ...byte) []byte { return cat(c28Word(bl), c28Word(el), c28Word(ml), tail) }
+		for i, in := range [][]byte{mx(0, 1, 1, 0, 5), mx(0, 1, 1, 2, 5), mx(0, 1, 1, 0, 1), mx(1, 0, 1, 3, 5), mx(1, 0, 1, 3, 1), mx(0, 0, 1, 5), mx(0, 0, 1, 1), mx(1, 1, 0, 3, 2)} {
+			pre(fmt.Sprintf("modexp-zero-len-%d", i), 5, in, c28ModexpRef(in))
+		}
+		g := cat(c28Word(1), c28Word(2))
+		preDiff("bnadd-empty", 6, nil)
+		preDiff("bnadd-g-plus-0-short", 6, g)
+		preDiff("bnadd-g-plus-g", 6, cat(g, g))
+		preDiff("bnmul-g-times-0-short", 7, g)
+		preDiff("bnmul-g-times-2", 7, cat(g, c28Word(2)))
+	}
 	// fix up expectations that depend on the program's own address (input = word(address))
 	for i := range ps {
 		if ps[i].name == "mem-calldatacopy-pad" {
@@ -505,6 +519,8 @@ func c28NewEnv() *c28Env {
 		deploy(c28WrapperAddr(k), c28Wrapper(k))
 		e.al = append(e.al, tuple(c28WrapperAddr(k)))
 	}
+	deploy(c28ForwarderAddr, c28Forwarder())
+	e.al = append(e.al, tuple(c28ForwarderAddr))
 	e.alFor = map[common.Address]types.AccessList{}
 	for _, p := range e.progs {
 		e.alFor[p.addr] = append(append(types.AccessList{}, e.al...), tuple(p.addr))
@@ -577,14 +593,22 @@ func c28Hex(b []byte) string {
 
 // run executes one message (origin -> to, input = word(target)) on a fresh copy of the base state with evm.
 func (e *c28Env) run(evm *EVM, to, target common.Address, gas uint64) c28Result {
+	return e.runInput(evm, to, target, common.LeftPadBytes(target.Bytes(), 32), gas)
+}
+
+// runInput is run with an explicit call data (target only selects the access list).
+func (e *c28Env) runInput(evm *EVM, to, target common.Address, input []byte, gas uint64) c28Result {
 	sdb, err := state.New(e.root, e.db)
 	if err != nil {
 		panic(err)
 	}
-	sdb.Prepare(e.rules, c28Origin, evm.Context.Coinbase, &to, e.pre, e.alFor[target])
+	al, okAl := e.alFor[target]
+	if !okAl {
+		al = e.al
+	}
+	sdb.Prepare(e.rules, c28Origin, evm.Context.Coinbase, &to, e.pre, al)
 	evm.StateDB = sdb
 	evm.SetTxContext(TxContext{Origin: c28Origin, GasPrice: uint256.NewInt(9), BlobHashes: []common.Hash{{1, 2, 3}}})
-	input := common.LeftPadBytes(target.Bytes(), 32)
 	ret, left, cerr := evm.Call(c28Origin, to, input, NewGasBudget(gas, 0), new(uint256.Int))
 	res := c28Result{ret: common.CopyBytes(ret), left: left, refund: sdb.GetRefund()}
 	if cerr != nil {
@@ -658,7 +682,13 @@ func TestVerif_C28(t *testing.T) {
 			"base state: every run == isolated baseline (return data, error, full leftover GasBudget, post-state root, logs, refund counter); "+
 			"(b) for every ordered pair (d,r) in P^2 and depth k in 1..3: d, then r nested under k wrapper frames: inner success, return data, gas used, "+
 			"post-state root, logs, refund == depth-0 baseline; (c) results known by construction (fresh memory reads zero, stdlib hashes) are compared "+
-			"in every context; distinct = distinct (sequence) / (d,r,k)", n, space))
+			"in every context; (d) for every cacheable precompile of the rule set (enumerated from the code): an input grid (MODEXP: length fields in "+
+			"{0,1,2,32}^3 x operands {absent, ..00, ..01, ..02, ..ff, ff..ff} + truncated/trailing variants + partial headers; fixed-prefix precompiles: "+
+			"operand sets cut at every word boundary +-1 and extended by trailing bytes; all: byte strings over a length grid x fills), each input run cold "+
+			"(no cache) as baseline (MODEXP also vs EIP-198 in math/big), then every ordered pair (x,y) through RunPrecompiledContract on a result cache "+
+			"warmed by x (quick: for MODEXP the pairs range over the {0,1,2}^3 x {absent,00,01,02,ff} sub-grid), a forward and a backward pass over the whole "+
+			"grid on one cache with every input run twice, and the reduced grid through a STATICCALL forwarder inside the EVM (quick: forward+backward "+
+			"pass, thorough: every ordered pair); distinct = distinct (sequence) / (d,r,k) / (precompile, x)", n, space))
 		r.Bound("programs", n)
 		known := 0
 		for _, p := range P {
@@ -864,7 +894,444 @@ func TestVerif_C28(t *testing.T) {
 				}
 			}
 		})
+		if r.Expired() {
+			return
+		}
+		// ---- (d) precompile result cache grids
+		c28PrecompileGrid(r, env, base)
 	})
+}
+
+// ---------------------------------------------------------------------------
+// (d) precompile result cache: input grids per cacheable precompile
+
+var c28ForwarderAddr = c28Addr(2000)
+
+// c28Forwarder STATICCALLs the precompile whose address is calldata word 0 with calldata[32:] and returns
+// success ‖ return data.
+func c28Forwarder() []byte {
+	a := c28New()
+	a.op(CALLDATASIZE).push(32).op(SWAP1, SUB)
+	a.op(DUP1).push(32).push(0).op(CALLDATACOPY)
+	a.push(0).push(0).op(DUP3).push(0).push(0).op(CALLDATALOAD, GAS, STATICCALL)
+	a.push(0x1000).op(MSTORE)
+	a.op(RETURNDATASIZE).push(0).push(0x1020).op(RETURNDATACOPY)
+	a.op(RETURNDATASIZE).push(0x20).op(ADD).push(0x1000).op(RETURN)
+	return a.bytes()
+}
+
+// c28ModexpRef is EIP-198 evaluated with math/big: operands are read from the zero-extended input.
+func c28ModexpRef(in []byte) []byte {
+	get := func(off, n uint64) []byte {
+		out := make([]byte, n)
+		if off < uint64(len(in)) {
+			copy(out, in[off:])
+		}
+		return out
+	}
+	bl := new(big.Int).SetBytes(get(0, 32)).Uint64()
+	el := new(big.Int).SetBytes(get(32, 32)).Uint64()
+	ml := new(big.Int).SetBytes(get(64, 32)).Uint64()
+	b := new(big.Int).SetBytes(get(96, bl))
+	e := new(big.Int).SetBytes(get(96+bl, el))
+	m := new(big.Int).SetBytes(get(96+bl+el, ml))
+	if ml == 0 {
+		return nil
+	}
+	if m.Sign() == 0 {
+		return make([]byte, ml)
+	}
+	return common.LeftPadBytes(new(big.Int).Exp(b, e, m).Bytes(), int(ml))
+}
+
+type c28Grid struct {
+	addr   common.Address
+	pre    PrecompiledContract
+	inputs [][]byte
+	small  int // inputs[:small] is the reduced grid used for the in-EVM (forwarder) pairs
+}
+
+func c28Dedup(in [][]byte) [][]byte {
+	seen := map[string]bool{}
+	var out [][]byte
+	for _, x := range in {
+		if !seen[string(x)] {
+			seen[string(x)] = true
+			out = append(out, x)
+		}
+	}
+	return out
+}
+
+// c28GenericInputs: byte strings over a length grid x fill patterns (all v / only first byte v / only last byte v).
+func c28GenericInputs(lens []int) [][]byte {
+	var out [][]byte
+	for _, l := range lens {
+		for _, v := range []byte{0x00, 0x01, 0x02, 0xff} {
+			all := bytes.Repeat([]byte{v}, l)
+			out = append(out, all)
+			if l > 1 && v != 0 {
+				first := make([]byte, l)
+				first[0] = v
+				last := make([]byte, l)
+				last[l-1] = v
+				out = append(out, first, last)
+			}
+		}
+	}
+	return out
+}
+
+// c28ModexpInputs: header length fields in lens^3 x every operand in {absent, 00.., ..01, ..02, ..ff (last byte), ff..ff},
+// plus truncated / trailing-byte variants of every input.
+func c28ModexpInputs(lens []uint64, variants, fills bool) [][]byte {
+	operand := func(l uint64) [][]byte {
+		if l == 0 {
+			return [][]byte{nil}
+		}
+		var out [][]byte
+		for _, v := range []byte{0, 1, 2, 0xff} {
+			o := make([]byte, l)
+			o[l-1] = v
+			out = append(out, o)
+		}
+		if l > 1 && fills {
+			out = append(out, bytes.Repeat([]byte{0xff}, int(l)))
+		}
+		return out
+	}
+	var out [][]byte
+	for _, bl := range lens {
+		for _, el := range lens {
+			for _, ml := range lens {
+				for _, b := range operand(bl) {
+					for _, e := range operand(el) {
+						for _, m := range operand(ml) {
+							in := bytes.Join([][]byte{c28Word(bl), c28Word(el), c28Word(ml), b, e, m}, nil)
+							out = append(out, in)
+							if variants {
+								out = append(out, in[:len(in)-1], append(append([]byte{}, in...), 0x00), append(append([]byte{}, in...), 0xff))
+							}
+						}
+					}
+				}
+			}
+		}
+	}
+	// headers only / partial headers
+	for _, n := range []int{0, 1, 32, 64, 95, 96} {
+		h := bytes.Join([][]byte{c28Word(1), c28Word(1), c28Word(1)}, nil)
+		out = append(out, h[:n])
+	}
+	return out
+}
+
+// c28PaddedInputs: for precompiles that read a fixed prefix of L bytes and zero-extend: every base truncated at the word
+// boundaries +-1 and extended by trailing bytes.
+func c28PaddedInputs(L int, bases [][]byte) [][]byte {
+	var out [][]byte
+	for _, b := range bases {
+		full := common.RightPadBytes(b, L)
+		for cut := 0; cut <= L; cut += 32 {
+			for _, d := range []int{-1, 0, 1} {
+				if n := cut + d; n >= 0 && n <= L {
+					out = append(out, full[:n])
+				}
+			}
+		}
+		out = append(out, append(append([]byte{}, full...), 0x00), append(append([]byte{}, full...), 0xff),
+			append(append([]byte{}, full...), make([]byte, 32)...), append(append([]byte{}, full...), bytes.Repeat([]byte{0xff}, 32)...))
+	}
+	return out
+}
+
+// c28Grids enumerates the cacheable precompiles of the active rule set from the code and builds their input grids.
+func c28Grids(evm *EVM, thorough bool) []c28Grid {
+	var addrs []common.Address
+	for a, p := range evm.precompiles {
+		if c, ok := p.(CacheablePrecompile); ok && c.Cacheable() {
+			addrs = append(addrs, a)
+		}
+	}
+	sort.Slice(addrs, func(i, j int) bool { return bytes.Compare(addrs[i][:], addrs[j][:]) < 0 })
+	cat := func(p ...[]byte) []byte { return bytes.Join(p, nil) }
+	h := crypto.Keccak256([]byte("c28"))
+	sig, _ := crypto.Sign(h, c28Key)
+	ecr := cat(h, c28Word(uint64(sig[64])+27), sig[:32], sig[32:64])
+	ecrOtherV := append([]byte{}, ecr...)
+	ecrOtherV[63] ^= 7 // 27 <-> 28
+	g := cat(c28Word(1), c28Word(2))
+	genericLens := []int{0, 1, 2, 32, 33, 64, 96, 128, 129, 160, 192, 213, 256, 288, 384, 512}
+	var grids []c28Grid
+	for _, a := range addrs {
+		p := evm.precompiles[a]
+		var special, small [][]byte
+		_, normalises := p.(NormalizingPrecompile)
+		switch p.(type) {
+		case *bigModExp:
+			small = c28ModexpInputs([]uint64{0, 1, 2}, false, false)
+			special = append(append([][]byte{}, small...), c28ModexpInputs([]uint64{0, 1, 2, 32}, false, true)...)
+			if thorough {
+				special = append(special, c28ModexpInputs([]uint64{0, 1, 2}, true, true)...)
+			} else {
+				special = append(special, c28ModexpInputs([]uint64{0, 1}, true, true)...)
+			}
+		case *ecrecover:
+			special = c28PaddedInputs(ecRecoverInputLength, [][]byte{ecr, ecrOtherV, ecr[:64], make([]byte, 128)})
+		case *bn256AddIstanbul, *bn256AddByzantium:
+			special = c28PaddedInputs(bn256AddInputLength, [][]byte{cat(g, g), g, cat(make([]byte, 64), g), nil, cat(c28Word(1), c28Word(1))})
+		case *bn256ScalarMulIstanbul, *bn256ScalarMulByzantium:
+			special = c28PaddedInputs(bn256ScalarMulInputLength, [][]byte{cat(g, c28Word(2)), cat(g, c28Word(0)), cat(g, c28Ones), nil})
+		case *blake2F:
+			for _, rounds := range []byte{0, 1, 2} {
+				for _, fin := range []byte{0, 1, 2} {
+					for _, fill := range []byte{0, 0xff} {
+						in := bytes.Repeat([]byte{fill}, blake2FInputLength)
+						copy(in[:4], []byte{0, 0, 0, rounds})
+						in[212] = fin
+						special = append(special, in, in[:212], append(append([]byte{}, in...), 0))
+					}
+				}
+			}
+		}
+		if small == nil {
+			small = special
+		}
+		generic := c28GenericInputs(genericLens)
+		if !normalises && !thorough {
+			generic = c28GenericInputs([]int{0, 1, 2, 32, 33, 64})
+		}
+		all := c28Dedup(append(append([][]byte{}, small...), append(special, generic...)...))
+		nsmall := len(c28Dedup(small))
+		if nsmall == 0 {
+			nsmall = len(all)
+		}
+		grids = append(grids, c28Grid{addr: a, pre: p, inputs: all, small: nsmall})
+	}
+	return grids
+}
+
+type c28PreRes struct {
+	out  []byte
+	err  string
+	left GasBudget
+}
+
+func (a c28PreRes) diff(b c28PreRes) string {
+	switch {
+	case !bytes.Equal(a.out, b.out):
+		return fmt.Sprintf("output %s vs %s", c28Hex(a.out), c28Hex(b.out))
+	case a.err != b.err:
+		return fmt.Sprintf("error %q vs %q", a.err, b.err)
+	case a.left != b.left:
+		return fmt.Sprintf("leftover gas %v vs %v", a.left, b.left)
+	}
+	return ""
+}
+
+const c28PreGas = 50_000_000
+
+// c28RunPre is the seam below EVM.Call/StaticCall...: RunPrecompiledContract with the given result cache (nil = none).
+func c28RunPre(sdb StateDB, g *c28Grid, rules params.Rules, in []byte, cache *PrecompileCache) c28PreRes {
+	inCopy := common.CopyBytes(in)
+	out, left, err := RunPrecompiledContract(sdb, g.pre, g.addr, inCopy, NewGasBudget(c28PreGas, 0), nil, rules, cache)
+	res := c28PreRes{out: common.CopyBytes(out), left: left}
+	if err != nil {
+		res.err = err.Error()
+	}
+	if !bytes.Equal(inCopy, in) {
+		res.err += " [precompile modified its input]"
+	}
+	return res
+}
+
+// c28PrecompileGrid runs, for every cacheable precompile, every ordered pair (x,y) of its input grid through a result cache
+// warmed by x (and by the grid elements checked before y), y twice; then the reduced grid through the in-EVM path.
+func c28PrecompileGrid(r *mc.R, env *c28Env, cold []c28Result) {
+	bevm := env.newEVM()
+	grids := c28Grids(bevm, r.Thorough())
+	sdb0, _ := state.New(env.root, env.db)
+	total, normalising := 0, 0
+	for gi := range grids {
+		g := &grids[gi]
+		name := fmt.Sprintf("%s@%x", g.pre.Name(), g.addr.Big())
+		if _, ok := g.pre.(NormalizingPrecompile); ok {
+			normalising++
+		}
+		total += len(g.inputs)
+		// cold baselines (+ EIP-198 reference for MODEXP)
+		base := make([]c28PreRes, len(g.inputs))
+		for i, in := range g.inputs {
+			base[i] = c28RunPre(sdb0, g, env.rules, in, nil)
+			if _, isModexp := g.pre.(*bigModExp); isModexp && base[i].err == "" {
+				if want := c28ModexpRef(in); !bytes.Equal(base[i].out, want) {
+					r.Violation(fmt.Sprintf("modexp-ref:%x", in), fmt.Sprintf("MODEXP(%x) = %x, EIP-198 with math/big gives %x", in, base[i].out, want), nil)
+				}
+			}
+			if base[i].err == "" {
+				r.Outcome("precompile_cold_ok")
+			} else {
+				r.Outcome("precompile_cold_error")
+			}
+		}
+		// (d1) RunPrecompiledContract with a shared cache. Explicit ordered pairs (x warms, y checked) over the whole grid
+		// (quick: over the reduced grid when the whole grid has more than 800 inputs), plus one forward and one backward pass over
+		// the whole grid on one cache with every input run twice (y after y; a key collision between two inputs with different
+		// results is hit whichever of the two comes first).
+		keys := make([][]byte, len(g.inputs))
+		cacheable := make([]bool, len(g.inputs))
+		var footprint int
+		for i, in := range g.inputs {
+			keys[i], cacheable[i] = precompileCacheKey(g.pre, in)
+			if cacheable[i] {
+				footprint += len(keys[i]) + len(base[i].out)
+			}
+		}
+		if footprint > maxCacheablePrecompileBytes*9/10 {
+			r.NotExhaustive(fmt.Sprintf("grid of %s does not fit the cache budget without eviction (%d bytes)", name, footprint))
+		}
+		npairs := len(g.inputs)
+		if r.Quick() && npairs > 800 {
+			npairs = g.small
+		}
+		var hits, classes int64
+		var hmu sync.Mutex
+		r.Parallel(npairs, func(xi int) {
+			c := map[string]any{"part": "precompile-pairs", "precompile": name, "warm": hex.EncodeToString(g.inputs[xi])}
+			r.Case(c, func() error {
+				sdb, _ := state.New(env.root, env.db)
+				var cache *PrecompileCache
+				var h, cl int64
+				for yi := 0; yi < npairs; yi++ {
+					if yi%256 == 0 {
+						// keep the cache far below its eviction budget: (re)start with a cache warmed by x only
+						cache = NewPrecompileCache()
+						if d := c28RunPre(sdb, g, env.rules, g.inputs[xi], cache).diff(base[xi]); d != "" {
+							return fmt.Errorf("%s(%x) on an empty cache differs from the run without cache: %s", name, g.inputs[xi], d)
+						}
+					}
+					if cacheable[xi] && cacheable[yi] && yi != xi && bytes.Equal(keys[xi], keys[yi]) {
+						cl++ // x and y share a cache entry: y is answered from x's result
+					}
+					if d := c28RunPre(sdb, g, env.rules, g.inputs[yi], cache).diff(base[yi]); d != "" {
+						return fmt.Errorf("%s(%x) after %s(%x) through a shared result cache differs from the run without cache: %s",
+							name, g.inputs[yi], name, g.inputs[xi], d)
+					}
+					h++
+				}
+				r.Eval(int64(npairs) - 1)
+				hmu.Lock()
+				hits += h
+				classes += cl
+				hmu.Unlock()
+				return nil
+			})
+			r.DistinctHash(mc.Hash64(name + string(g.inputs[xi])))
+		})
+		r.OutcomeN("precompile_pairs_checked", hits)
+		r.OutcomeN("precompile_pairs_sharing_a_cache_entry", classes)
+		for _, dir := range []string{"forward", "backward"} {
+			c := map[string]any{"part": "precompile-pass", "precompile": name, "order": dir}
+			r.Case(c, func() error {
+				sdb, _ := state.New(env.root, env.db)
+				cache := NewPrecompileCache()
+				for k := range g.inputs {
+					i := k
+					if dir == "backward" {
+						i = len(g.inputs) - 1 - k
+					}
+					for rep := 0; rep < 2; rep++ {
+						if d := c28RunPre(sdb, g, env.rules, g.inputs[i], cache).diff(base[i]); d != "" {
+							return fmt.Errorf("%s(%x) (run %d) in the %s pass over the grid on one shared result cache differs from the run without cache: %s",
+								name, g.inputs[i], rep+1, dir, d)
+						}
+					}
+				}
+				r.Eval(int64(2*len(g.inputs)) - 1)
+				return nil
+			})
+			r.DistinctHash(mc.Hash64("d1pass" + name + dir))
+		}
+		if r.Expired() {
+			return
+		}
+		// (d2) in-EVM path: forwarder contract STATICCALLs the precompile; reduced grid, every ordered pair in thorough,
+		// one forward and one backward pass over the grid on a shared cache in quick (a key collision between two inputs with
+		// different results is hit in one of the two passes whichever of the two comes first)
+		small := g.inputs[:g.small]
+		msg := func(in []byte) []byte { return append(common.LeftPadBytes(g.addr.Bytes(), 32), in...) }
+		fbase := make([]c28Result, len(small))
+		for i, in := range small {
+			c28Pristine(bevm)
+			fbase[i] = env.runInput(bevm, c28ForwarderAddr, c28ForwarderAddr, msg(in), c28OuterGas)
+			want := append(c28Word(1), base[i].out...)
+			if base[i].err != "" {
+				want = c28Word(0)
+			}
+			if fbase[i].err != "" || !bytes.Equal(fbase[i].ret, want) {
+				r.Violation(fmt.Sprintf("forwarder:%s:%x", name, in), fmt.Sprintf("%s(%x) through STATICCALL returns %s / %q, direct run: %s / %q",
+					name, in, c28Hex(fbase[i].ret), fbase[i].err, c28Hex(base[i].out), base[i].err), nil)
+			}
+		}
+		check := func(evm *EVM, i int, after string) error {
+			res := env.runInput(evm, c28ForwarderAddr, c28ForwarderAddr, msg(small[i]), c28OuterGas)
+			if d := res.diff(fbase[i]); d != "" {
+				return fmt.Errorf("forwarder STATICCALL %s(%x) %s differs from its isolated run: %s", name, small[i], after, d)
+			}
+			return nil
+		}
+		if r.Thorough() {
+			r.Parallel(len(small), func(xi int) {
+				c := map[string]any{"part": "precompile-pairs-evm", "precompile": name, "warm": hex.EncodeToString(small[xi])}
+				r.Case(c, func() error {
+					evm := env.newEVM()
+					defer evm.Release()
+					evm.SetPrecompileCache(NewPrecompileCache())
+					if err := check(evm, xi, "on an empty cache"); err != nil {
+						return err
+					}
+					for yi := range small {
+						if err := check(evm, yi, fmt.Sprintf("after %x", small[xi])); err != nil {
+							return err
+						}
+					}
+					r.Eval(int64(len(small)) - 1)
+					return nil
+				})
+				r.DistinctHash(mc.Hash64("evm" + name + string(small[xi])))
+			})
+		} else {
+			for _, dir := range []string{"forward", "backward"} {
+				c := map[string]any{"part": "precompile-pass-evm", "precompile": name, "order": dir}
+				r.Case(c, func() error {
+					evm := env.newEVM()
+					defer evm.Release()
+					evm.SetPrecompileCache(NewPrecompileCache())
+					for k := range small {
+						i := k
+						if dir == "backward" {
+							i = len(small) - 1 - k
+						}
+						for rep := 0; rep < 2; rep++ {
+							if err := check(evm, i, "in the "+dir+" pass over the grid on a shared cache"); err != nil {
+								return err
+							}
+						}
+					}
+					r.Eval(int64(2*len(small)) - 1)
+					return nil
+				})
+				r.DistinctHash(mc.Hash64("pass" + name + dir))
+			}
+		}
+		r.Bound("grid."+name, fmt.Sprintf("%d inputs, explicit pairs over %d, in-EVM grid %d", len(g.inputs), npairs, len(small)))
+		if r.Expired() {
+			return
+		}
+	}
+	r.Bound("cacheable_precompiles", len(grids))
+	r.Bound("normalising_precompiles", normalising)
+	r.Bound("precompile_grid_inputs_total", total)
 }
 
 var _ = ecdsa.PrivateKey{}
